@@ -260,7 +260,7 @@ def plans(draw, start, data, o, allow_m=True, with_loops=True, with_ignored=True
                 lines.append('L %d,%d,%d' % (first, plen, count))
                 info['L'] += 1
                 a += plen * (count - 1)
-    if end < 65536:
+    if end < 65536 and info['blocks'][-1][0] != 'i':
         lines.append('i %d' % end)
     return lines, info
 
